@@ -231,6 +231,11 @@ func (c13) Exec(sc *sim.Scenario, env *sim.Env) *sim.Violation {
 	if err != nil || b == nil {
 		return &sim.Violation{Oracle: "bus_new", Step: 0, Msg: fmt.Sprint(err)}
 	}
+	if sim.Mix(sc.Seed^0xB05)%4 == 0 {
+		// a bus that never went through New(): the zero value, the way emulator.System embeds it
+		b = new(bus.Bus)
+		st.Probe("zero_value_bus")
+	}
 	devs := make([]*SimMem, ndev)
 	reals := make([]*realDev, ndev)
 	for i := range devs {
